@@ -49,8 +49,9 @@ PURE_SUFFIX = (
     "::from", "::is_leaf_dir_entry", "::tile_id_range", "::is_some", "::is_none", "::is_ok", "::is_err",
     "::contains_key", "::leading_zeros", "::trailing_zeros", "::count_ones", "::round", "::floor", "::ceil",
     "::trunc", "::round_ties_even", "::abs", "::pow", "::checked_pow", "::map", "::sum", "::collect",
-    "::chunks", "::default", "::new", "::with_capacity", "::Some", "::Ok", "::Err",
+    "::chunks", "::Some", "::Ok", "::Err",
 )
+# note: constructors (`::new`, `::with_capacity`, `::default`) are allocation sites: two calls are two objects, so they are not pure here
 
 ARITH_METHODS = {
     # name -> (operator, flavour)
